@@ -308,4 +308,75 @@ def zeroIgnored (t : TypeD) (ov : Override) : List Key :=
       else none
     | _ => none
 
+/-! ## Histories of creations on one factory
+
+`mechanismsFactory` has no state besides the catalogue: `createSeq` threads the store through a history of `Create…`
+calls, one after the other (the concurrent case is the machine of `Model/Mech.lean`).  `Props/C17.lean` shows that every
+answer of such a history is the answer the request gets when it is the only one the factory ever sees.  A rule-level
+`config` is a typed value here as well: an entry is `(key, canonical JSON text)`, so `"1"` (text `"\"1\""`) and `1` (text
+`"1"`) are different overrides. -/
+
+/-- what the factory hands out -/
+inductive Handed where
+  | notFound
+  | configError
+  | proto (h : Nat)
+  | variant (h : Nat)
+deriving Repr, DecidableEq
+
+/-- a `Create…` call: the handle the catalogue has for the id (if any) and the rule's `config` (if any) -/
+abbrev CreateReq := Option Nat × Option Override
+
+def createSeq : Store Entries Override → List CreateReq → Store Entries Override × List Handed
+  | σ, [] => (σ, [])
+  | σ, r :: rest =>
+    match create σ r.1 r.2 with
+    | .notFound => ((createSeq σ rest).1, .notFound :: (createSeq σ rest).2)
+    | .configError => ((createSeq σ rest).1, .configError :: (createSeq σ rest).2)
+    | .proto h => ((createSeq σ rest).1, .proto h :: (createSeq σ rest).2)
+    | .variant σ' h => ((createSeq σ' rest).1, .variant h :: (createSeq σ' rest).2)
+
+/-- what a rule observes of the answer: the verdict and the configuration the object stands for -/
+inductive Observed where
+  | notFound
+  | configError
+  | shows (isPrototype : Bool) (eff : Entries)
+deriving Repr, DecidableEq
+
+def Handed.observed (σ : Store Entries Override) : Handed → Observed
+  | .notFound => .notFound
+  | .configError => .configError
+  | .proto h => .shows true (effective σ h)
+  | .variant h => .shows false (effective σ h)
+
+/-- the answer to a request that is the only one the factory ever sees -/
+def createAlone (σ : Store Entries Override) (r : CreateReq) : Observed :=
+  match create σ r.1 r.2 with
+  | .notFound => .notFound
+  | .configError => .configError
+  | .proto h => .shows true (effective σ h)
+  | .variant σ' h => .shows false (effective σ' h)
+
+/-- what the code does *not* do: a factory that remembers the variants it has created under (catalogue entry,
+`key config`) and looks there first -/
+def memoSeq {K : Type} [DecidableEq K] (key : Override → K) :
+    Store Entries Override → List ((Nat × K) × Nat) → List CreateReq → Store Entries Override × List Handed
+  | σ, _, [] => (σ, [])
+  | σ, memo, r :: rest =>
+    let hit : Option Nat := match r.1, r.2 with
+      | some p, some ov => (memo.find? fun e => e.1 = (p, key ov)).map (·.2)
+      | _, _ => none
+    match hit with
+    | some h => ((memoSeq key σ memo rest).1, .variant h :: (memoSeq key σ memo rest).2)
+    | none =>
+      match create σ r.1 r.2 with
+      | .notFound => ((memoSeq key σ memo rest).1, .notFound :: (memoSeq key σ memo rest).2)
+      | .configError => ((memoSeq key σ memo rest).1, .configError :: (memoSeq key σ memo rest).2)
+      | .proto h => ((memoSeq key σ memo rest).1, .proto h :: (memoSeq key σ memo rest).2)
+      | .variant σ' h =>
+        let memo' := match r.1, r.2 with
+          | some p, some ov => ((p, key ov), h) :: memo
+          | _, _ => memo
+        ((memoSeq key σ' memo' rest).1, .variant h :: (memoSeq key σ' memo' rest).2)
+
 end Heimdall.Mech
